@@ -233,10 +233,10 @@ class Manifest:
                 for p in e.all_ins:
                     if p in self.producer:
                         continue
-                    if not os.path.exists(os.path.join(builddir, p)):
+                    if not os.path.lexists(os.path.join(builddir, p)):
                         errs.append("'%s', needed by '%s', missing and no known rule to make it" % (p, (e.all_outs or ['?'])[0]))
         for d in self.defaults:
-            if d not in self.producer and (builddir is None or not os.path.exists(os.path.join(builddir, d))):
+            if d not in self.producer and (builddir is None or not os.path.lexists(os.path.join(builddir, d))):
                 errs.append("unknown target '%s' in default" % d)
         return errs
 
